@@ -154,8 +154,9 @@ class DictWriter:
                     # nasty python code annotations when writing to yaml.
                     if isinstance(tag, tuple):
                         prop_dict[attr] = list(tag)
-                    # Even if 'values' is empty, allow '[]'; an uncertainty of 0 is a value as well.
-                    elif (tag == []) or tag or (tag == 0 and tag is not False):
+                    # Even if 'values' is empty, allow '[]'; numbers and booleans are set
+                    # attributes also when they are 0 or False (uncertainty, dependency_value).
+                    elif (tag == []) or tag or isinstance(tag, (bool, int, float)):
                         # Custom odML tuples require special handling.
                         if attr == "values" and prop.dtype and \
                                 prop.dtype.endswith("-tuple") and prop.values:
